@@ -1054,14 +1054,34 @@ def r67(ctx):
             if mv:
                 atoms['first_visit'] = mv[0].bb
                 atoms['follow_links'] = ('field', 'follow_links')
+            # when links are followed the include patterns cannot prune a directory (the links in it lead anywhere): a second predicate, the
+            # exclude-only one, takes the place of matches_dir on that side
+            mdl = b.calls(r'PathSelector::matches_dir_following_links$')
+            if mdl:
+                atoms['matches_dir_links'] = mdl[0].bb
+                atoms['follow_links'] = ('field', 'follow_links')
             tt = truth_table(b, atoms, target_bb=rd[0].bb, field_owner='Walk')
             # `deep` = the depth comparison as written (true = too deep after C09.R1 normalisation is checked separately)
             br = branch_of(b, cmps[0])
             deep_true_skips = br is not None and not b.dominates(br[1], rd[0].bb)
-            ok, why = table_equals(tt, lambda a: (not a['deep'] if deep_true_skips else a['deep']) and a['matches_dir'] and ((not a['one_fs']) or a['same_fs']) and
+            sel = (lambda a: (a['matches_dir_links'] if a['follow_links'] else a['matches_dir'])) if mdl else (lambda a: a['matches_dir'])
+            ok, why = table_equals(tt, lambda a: (not a['deep'] if deep_true_skips else a['deep']) and sel(a) and ((not a['one_fs']) or a['same_fs']) and
                                    ((not a['follow_links']) or a['first_visit'] if mv else True))
-            ctx.check(ok, rule, b.path + '|read-condition', rd[0].where(), 'read_dir iff within depth && matches_dir && (!one_fs || same_fs)%s  [%s]' % (' && (!follow_links || not visited yet at this or a smaller level)' if mv else '', why),
+            ctx.check(ok, rule, b.path + '|read-condition', rd[0].where(), 'read_dir iff within depth && %s && (!one_fs || same_fs)%s  [%s]' % ('(follow_links ? not excluded : matches_dir)' if mdl else 'matches_dir', ' && (!follow_links || not visited yet at this or a smaller level)' if mv else '', why),
                       'the condition under which a directory is read differs: %s' % why)
+            # under -L the include side of matches_dir must not decide: the paths that get matched are those of the link targets
+            if mv:
+                tt2 = truth_table(b, dict(atoms), target_bb=md[0].bb, field_owner='Walk')
+                under_links = False
+                if tt2:
+                    names2, table2 = tt2
+                    for k_, res in table2.items():
+                        a_ = dict(zip(names2, k_))
+                        if a_.get('follow_links') is True and ((res is True) or (isinstance(res, str) and 'True' in res)):
+                            under_links = True
+                ctx.check(bool(mdl) and not under_links, rule, b.path + '|no-include-pruning-under-links', md[0].where(), 'with follow_links the include patterns do not prune directories (only the exclude-subtree test does)',
+                          'visit_dir prunes a directory whose own path cannot begin an included path also under --follow-links: but there the files are matched and reported by the paths of the link '
+                          'TARGETS - `fclones group links -L --path "/data/real/**"` (links/inner/dirlink -> /data/real) reports nothing, because `links` itself is pruned at level 0')
             # same_fs is asked about this directory and the root device
             ok2 = 2 in backslice(b, [sf[0].args[1]]).params and 3 in backslice(b, [sf[0].args[2]]).params
             ctx.check(ok2, rule, b.path + '|same_fs-args', sf[0].where(), 'same_fs(path, root device)', 'same_fs is asked about something else')
